@@ -30,7 +30,9 @@ XFailPlaces == {XPlace(k, c) : k \in 1..5, c \in {401, 403, 423, 500, 507}}
 RPlace(c) == "resp" \o ToString(c)
 RespCodes == {100, 102, 199, 300, 301, 302, 304, 307, 399, 400, 401, 403, 409, 423, 499, 500, 507, 599}
 RFailPlaces == {RPlace(c) : c \in RespCodes}
-FailPlaces == {"resp403", "resp500", "ps403", "ps500"} \cup XFailPlaces \cup RFailPlaces
+\* "resperr<code>": a failed response carrying both a DAV:error condition element and a responsedescription
+RErrPlaces == {"resperr403", "resperr507"}
+FailPlaces == {"resp403", "resp500", "ps403", "ps500"} \cup XFailPlaces \cup RFailPlaces \cup RErrPlaces
 
 ErrExpected(kind, r) ==
   \/ ~Is2xx(r.st)
@@ -47,6 +49,8 @@ ClientOutcomeOK(kind, r, o) ==
   /\ o.err = ErrExpected(kind, r)
   /\ (~Is2xx(r.st) => o.code = r.st)
   /\ (CondExpected(r) => o.cond)
+  \* the condition element of a failed resource inside a multi-status is carried by the error as well
+  /\ (kind \in MsKinds /\ r.st = 207 /\ r.body = "valid" /\ r.place \in RErrPlaces => o.cond)
   /\ (~o.err /\ kind = "sync" /\ r.place = "resp404" => o.deleted >= 1)
   /\ (~o.err /\ kind = "sync" /\ r.place # "resp404" => o.deleted = 0)
   \* a failing answer never yields data
